@@ -849,6 +849,9 @@ func gridnFunc(gridnFn func(float64, string)) builtinFunc {
 	return func(_ *scope, args []value) (value, error) {
 		unit := args[0].(*numVal)
 		color := args[1].(*stringVal)
+		if !(unit.V > 0) { // also excludes NaN; a spacing of 0 or less never reaches the edge
+			return nil, fmt.Errorf(`%w: "gridn" spacing must be greater than 0, found %v`, ErrBadArguments, unit.V)
+		}
 		gridnFn(unit.V, color.V)
 		return nil, nil
 	}
